@@ -31,7 +31,7 @@ theorem setMany_extends (strict : Bool) : ∀ (kvs : List (Path × Ref)) (h : He
 
 theorem shallowCopy_extends (h : Heap) (r : Ref) : Extends h (shallowCopy h r).1 := by
   unfold shallowCopy
-  split <;> first | exact extends_push _ _ | exact Extends.refl _
+  split <;> first | exact extends_push _ _ | exact ndCopy_extends _ _ _ _ | exact Extends.refl _
 
 theorem mapValues_extends {f : LeafFn} (hf : ∀ h r, Extends h (f h r).1) :
     ∀ (ps : List Path) (h : Heap) (root : Ref), Extends h (mapValues f h root ps).1 := by
